@@ -20,6 +20,8 @@ local name bound to a `CellVariable(...)` call = `.new`.
   docstring                                                         (none)
   S._value = TrackedArray(cellValuesWithBoundaries(S.value, S.BCs)) ghostFromCurrent S; setValMod S false      [1]
   S._value = TrackedArray(<fresh ghosted array>)                    newInterior S; setValMod S false            [1][2]
+  self._value = TrackedArray(cell_value)   (`__init__`, ghost-shaped value; also with `np.asarray(cell_value[,
+                                            dtype=float])` around it)  valueFrom new <source>; setValMod new false   [1][6]
   S._value[1:-1, ...] = <parameter>     (value setter)              newInterior S; setValMod S true             [3]
   S.value[...] = ...                    (user item assignment)      newInterior S; setValMod S true             [3][4]
   S._BCsTerm = boundaryConditionsTerm(S.BCs)                        cacheFromCurrent S
@@ -40,6 +42,7 @@ local name bound to a `CellVariable(...)` call = `.new`.
   if <untracked test>: A else: B   with A, B the same program       that program                                [7]
   self.domain = mesh_struct                                         (none: `domain` is not a tracked attribute)
   numerical payload                                                 (none)                                      [8]
+  t = E; <simple statement containing the only other use of t>      as that statement with t replaced by E      [9]
 
   boolean expressions: S.BCsTerm_precalc, S.BCs.modified, S.value.modified [4], S._value.modified,
     S._BCs_applied != S.BCs._state_token() (== : negated), S._BCs_outdated() (call of the translated method),
@@ -67,6 +70,12 @@ local name bound to a `CellVariable(...)` call = `.new`.
       a local except `.copy()` / `.reshape()`; no tracked object passed to a call (except isinstance / getattr / len /
       type / np.reshape / np.copy / np.isscalar / hasattr); no `setattr`, `delattr`, `__dict__`, `__setattr__`, `vars`,
       `exec`, `eval`, `globals`, `locals`; the object references are never rebound.
+  [9] single-use temporaries (`ghosted = cellValuesWithBoundaries(self.value, self.BCs)` + `self._value =
+      TrackedArray(ghosted)`; `bcs = deepcopy(self.BCs)` + `CellVariable(..., bcs)`): ONLY when `t = E` alone is
+      not understood, the next statement is simple (no `if` / loop / lambda / comprehension), `t` is a plain local
+      stored once and loaded once in the whole function.  The merged statement must match a pattern of this table;
+      their sub-expressions are reads, so evaluating E at its place of use instead of one statement earlier
+      changes nothing.  `return`s in all branches of an `if`: the references bound inside the branches are dropped.
 ANY other statement makes the function `untranslated: <reason>`: no definition is emitted, its name is listed in
 `untranslated`, the theorems about it in GenEqState.lean no longer compile.  A function that calls an untranslated
 function is untranslated.
@@ -473,6 +482,7 @@ class Ctx:
 
     def fork(self):
         c = Ctx(self.tr, self.fname, self.refs, self.ref_exprs, self.params, dict(self.ctor) if self.ctor else None)
+        c.fn_node = getattr(self, "fn_node", None)
         c.locals, c.tainted, c.fresh = set(self.locals), set(self.tainted), set(self.fresh)
         c.cache_names, c.loads = list(self.cache_names), self.loads
         c.user_bc, c.user_interior = self.user_bc, self.user_interior
@@ -480,7 +490,10 @@ class Ctx:
 
     def join(self, a, b):
         if a.refs != b.refs:
-            raise Bad("the branches of an `if` bind different object references")
+            if not (a.returned is True and b.returned is True):
+                raise Bad("the branches of an `if` bind different object references")
+            # both branches have returned: nothing is executed after the `if`; keep the common bindings only
+            a.refs = {k: v for k, v in a.refs.items() if b.refs.get(k) == v}
         self.refs = a.refs
         self.locals = a.locals | b.locals
         self.tainted = a.tainted | b.tainted
@@ -743,11 +756,69 @@ class Ctx:
     # ---- statements
     def block(self, stmts):
         out = []
-        for st in stmts:
+        i = 0
+        while i < len(stmts):
+            st = stmts[i]
             if self.returned:
                 raise Bad(f"statement after return (line {st.lineno})")
+            merged = self.single_use_temp(stmts, i)
+            if merged is not None:
+                probe = self.fork()
+                probe.loads = list(self.loads)
+                try:
+                    probe.stmt(st)
+                except Bad:
+                    st = merged                 # `t = E; S[t]` is translated as `S[E]`
+                    i += 1
             out += self.stmt(st)
+            i += 1
         return out
+
+    def single_use_temp(self, stmts, i):
+        """`t = E` followed IMMEDIATELY by a simple statement that contains the ONLY other occurrence of the local
+        name `t` in the whole function: returns that statement with `t` replaced by `E` (else None).  The merged
+        statement evaluates E later than the original (after the sub-expressions to its left); it is only used
+        when `t = E` itself is not understood, and it must then match one of the statement patterns, all of whose
+        sub-expressions are reads without effect on the tracked fields, so the order of evaluation is immaterial."""
+        fn = getattr(self, "fn_node", None)
+        if fn is None or i + 1 >= len(stmts):
+            return None
+        st, nxt = stmts[i], stmts[i + 1]
+        if not (isinstance(st, ast.Assign) and len(st.targets) == 1 and isinstance(st.targets[0], ast.Name)):
+            return None
+        t, E = st.targets[0].id, st.value
+        if isinstance(E, ast.Call) and U(E.func) == "CellVariable":
+            return None
+        if not isinstance(nxt, (ast.Assign, ast.AugAssign, ast.Return, ast.Expr)):
+            return None
+        if t in self.refs or t in self.params or t in self.locals or t in self.user_bc or t in self.user_interior:
+            return None
+        deferred = (ast.Lambda, ast.ListComp, ast.SetComp, ast.DictComp, ast.GeneratorExp, ast.NamedExpr, ast.Yield,
+                    ast.YieldFrom, ast.Await, ast.FunctionDef, ast.AsyncFunctionDef, ast.ClassDef, ast.Starred)
+        if any(isinstance(x, deferred) for x in list(ast.walk(nxt)) + list(ast.walk(E))):
+            return None
+        stores = loads = 0
+        for x in ast.walk(fn):
+            if isinstance(x, ast.Name) and x.id == t:
+                if isinstance(x.ctx, ast.Load):
+                    loads += 1
+                else:
+                    stores += 1
+            elif isinstance(x, ast.arg) and x.arg == t:
+                return None
+            elif isinstance(x, (ast.Global, ast.Nonlocal)) and t in x.names:
+                return None
+        inside = [x for x in ast.walk(nxt) if isinstance(x, ast.Name) and x.id == t and isinstance(x.ctx, ast.Load)]
+        if stores != 1 or loads != 1 or len(inside) != 1:
+            return None
+        import copy
+
+        class Sub(ast.NodeTransformer):
+            def visit_Name(self, node):
+                if node.id == t and isinstance(node.ctx, ast.Load):
+                    return ast.copy_location(copy.deepcopy(E), node)
+                return node
+        return ast.fix_missing_locations(Sub().visit(copy.deepcopy(nxt)))
 
     def stmt(self, st):
         import re
@@ -775,7 +846,11 @@ class Ctx:
                     raise Bad("__init__: phi_val from a ghost-shaped array")
                 c["phi_val"] = c["valkind"]
                 return []
-            if s == f"REF_new._value = TrackedArray({c['cv']})":
+            # `np.asarray(x, dtype=float)` / `np.asarray(x)`: x itself for a float array, a float copy of the same values
+            # otherwise: an adopted initial array either way
+            if s in (f"REF_new._value = TrackedArray({c['cv']})",
+                     f"REF_new._value = TrackedArray(np.asarray({c['cv']}, dtype=float))",
+                     f"REF_new._value = TrackedArray(np.asarray({c['cv']}))"):
                 if c["valkind"] != "ghosted":
                     raise Bad("__init__: the initial value is used as the ghosted array although it is not ghost-shaped")
                 c["valnone"] = False
@@ -807,6 +882,11 @@ class Ctx:
             if isinstance(a, ast.Call) and U(a.func) == "np.reshape" and len(a.args) == 2 and not a.keywords \
                     and isinstance(a.args[0], ast.Name) and a.args[0].id in self.fresh:
                 self.check_pure(a.args[1])
+                ok = True
+            if isinstance(a, ast.Call) and isinstance(a.func, ast.Attribute) and a.func.attr == "reshape" \
+                    and len(a.args) == 1 and not a.keywords and isinstance(a.func.value, ast.Name) \
+                    and a.func.value.id in self.fresh:
+                self.check_pure(a.args[0])           # `x.reshape(shape)` is `np.reshape(x, shape)`
                 ok = True
             if not ok:
                 raise Bad(f"`{U(st)[:70]}` (line {st.lineno}): the new `_value` is not a fresh local array")
@@ -1034,6 +1114,7 @@ class Ctx:
         for x in ast.walk(init):
             if isinstance(x, ast.Name) and x.id in FORBIDDEN_NAMES:
                 raise Bad(f"__init__: `{x.id}` is used")
+        ictx.fn_node = init
         body = ictx.block(strip_doc(init.body))
         if ictx.returned:
             raise Bad("__init__ returns")
@@ -1155,6 +1236,7 @@ class Translator:
                 raise Bad(f"`.{x.attr}` is used")
         ctx = Ctx(self, fname, refs, ref_exprs, params)
         ctx.user_bc, ctx.user_interior = set(user_bc), set(user_interior)
+        ctx.fn_node = fn
         prog = ctx.block(strip_doc(fn.body))
         for n1, n2, line in ctx.cache_names:
             for n in (n1, n2):
